@@ -583,6 +583,20 @@ def run_program_jobs(check, mod, infos, jobs, record=0, native_templates=(), **k
     return out
 
 
+def run_program_jobs_batched(check, mod, infos, jobs, batch=250, **kw):
+    """Like run_program_jobs but loads at most `batch` packages per engine run
+    (a load of thousands of generated packages does not fit in memory)."""
+    pk = sorted({j['pkg'] for j in jobs})
+    merged = {'jobs': [], 'load_errors': {}, 'skipped': {}}
+    for i in range(0, len(pk), batch):
+        part = set(pk[i:i + batch])
+        out = run_program_jobs(check, mod, infos, [j for j in jobs if j['pkg'] in part], **kw)
+        merged['jobs'] += out.get('jobs') or []
+        merged['load_errors'].update(out.get('load_errors') or {})
+        merged['skipped'].update(out.get('skipped') or {})
+    return merged
+
+
 def replay_main(check, replay, infos, native_templates=()):
     body = json.load(open(replay))
     name = body['pkg'].split('/')[-1]
